@@ -1241,4 +1241,161 @@ theorem WF_ofBits (b : Nat) : WF (ofBits b) := by
       have he := Nat.mod_lt (b / 2 ^ 52) (show 0 < 2 ^ 11 by decide)
       exact WF_fin_mul_pow2 _ (by omega) (by omega) (by omega) (by omega)
 
+/-! ### 7. `time.Duration.Seconds()` and `timemath.Duration` -/
+
+theorem tdiv_tmod_facts (d : Int) :
+    d = Int.tdiv d 1000000000 * 1000000000 + Int.tmod d 1000000000 ∧
+    (0 ≤ d → 0 ≤ Int.tmod d 1000000000 ∧ Int.tmod d 1000000000 ≤ d) ∧
+    (d ≤ 0 → d ≤ Int.tmod d 1000000000 ∧ Int.tmod d 1000000000 ≤ 0) ∧
+    (Int.tmod d 1000000000).natAbs < 1000000000 := by
+  by_cases h : 0 ≤ d
+  · rw [Int.tdiv_eq_ediv_of_nonneg h, Int.tmod_eq_emod_of_nonneg h]
+    omega
+  · have h' : 0 ≤ -d := by omega
+    have e1 : Int.tdiv d 1000000000 = -((-d) / 1000000000) := by
+      rw [← Int.tdiv_eq_ediv_of_nonneg h', Int.neg_tdiv]; omega
+    have e2 : Int.tmod d 1000000000 = -((-d) % 1000000000) := by
+      rw [← Int.tmod_eq_emod_of_nonneg h', Int.neg_tmod]; omega
+    rw [e1, e2]
+    omega
+
+theorem ofInt_1e9 : ofInt 1000000000 = .fin 1000000000 := by
+  rw [ofInt_exact (by decide) (by decide)]; simp
+
+/-- sub-second part as a double: within `[0, 1]` resp. `[-1, 0]` -/
+theorem rnd_frac_bounds {ns : Int} (h : ns.natAbs < 1000000000) :
+    (0 ≤ ns → 0 ≤ rnd ((ns : Rat) / 1000000000) ∧ rnd ((ns : Rat) / 1000000000) ≤ 1) ∧
+    (ns ≤ 0 → -1 ≤ rnd ((ns : Rat) / 1000000000) ∧ rnd ((ns : Rat) / 1000000000) ≤ 0) := by
+  have hl : ((-1000000000 : Int) : Rat) ≤ (ns : Rat) := Rat.intCast_le_intCast.2 (by omega)
+  have hu : (ns : Rat) ≤ ((1000000000 : Int) : Rat) := Rat.intCast_le_intCast.2 (by omega)
+  have r1 : Rep (1 : Rat) := by have := rep_pow2 (K := 0) (by decide); rwa [pow2_zero] at this
+  simp only [Rat.intCast_neg, Rat.intCast_ofNat] at hl hu
+  constructor
+  · intro h0
+    have h0' : ((0 : Int) : Rat) ≤ (ns : Rat) := Rat.intCast_le_intCast.2 h0
+    rw [Rat.intCast_zero] at h0'
+    exact ⟨rnd_nonneg (by grind), rnd_le_of_le_rep r1 (by grind)⟩
+  · intro h0
+    have h0' : (ns : Rat) ≤ ((0 : Int) : Rat) := Rat.intCast_le_intCast.2 h0
+    rw [Rat.intCast_zero] at h0'
+    exact ⟨le_rnd_of_rep_le r1.neg (by grind), rnd_nonpos (by grind)⟩
+
+/-- the value `Seconds()` computes, as a rational: both roundings explicit -/
+def secondsVal (d : Int) : Rat :=
+  rnd (((Int.tdiv d 1000000000 : Int) : Rat) + rnd (((Int.tmod d 1000000000 : Int) : Rat) / 1000000000))
+
+/-- `Duration.Seconds()` of any int64: finite, well-formed, value `secondsVal d` -/
+theorem durationSeconds_val {d : Int} (hd : d.natAbs ≤ 2 ^ 63) :
+    isFinite (durationSeconds d) = true ∧ WF (durationSeconds d) ∧
+    toRat (durationSeconds d) = secondsVal d := by
+  obtain ⟨hsplit, hpos, hneg, hns⟩ := tdiv_tmod_facts d
+  unfold durationSeconds secondsVal
+  generalize Int.tdiv d 1000000000 = sec at *
+  generalize Int.tmod d 1000000000 = ns at *
+  have hsec : sec.natAbs ≤ 2 ^ 53 := by omega
+  have hnsb : ns.natAbs ≤ 2 ^ 53 := by omega
+  have hfr := rnd_frac_bounds hns
+  have hmax : (17179869184 : Rat) ≤ maxFin := by
+    refine Rat.le_trans ?_ (pow2_le_maxFin (K := 34) (by decide))
+    rw [show pow2 34 = 17179869184 by decide]; exact Rat.le_refl
+  have hl : ((-1000000000 : Int) : Rat) ≤ (ns : Rat) := Rat.intCast_le_intCast.2 (by omega)
+  have hu : (ns : Rat) ≤ ((1000000000 : Int) : Rat) := Rat.intCast_le_intCast.2 (by omega)
+  have hsl : ((-9223372037 : Int) : Rat) ≤ (sec : Rat) := Rat.intCast_le_intCast.2 (by omega)
+  have hsu : (sec : Rat) ≤ ((9223372037 : Int) : Rat) := Rat.intCast_le_intCast.2 (by omega)
+  simp only [Rat.intCast_neg, Rat.intCast_ofNat] at hl hu hsl hsu
+  obtain ⟨fQ, vQ⟩ := toRat_div (isFinite_ofInt_exact hnsb) (isFinite_ofInt_exact (i := 1000000000) (by decide))
+    (by rw [ofInt_1e9]; simp [toRat_fin]) (by
+      rw [toRat_ofInt_exact hnsb, ofInt_1e9, toRat_fin]
+      refine Rat.le_trans ?_ hmax; rw [abs_le_iff]; grind)
+  rw [toRat_ofInt_exact hnsb, ofInt_1e9, toRat_fin] at vQ
+  have hfrb : -1 ≤ rnd ((ns : Rat) / 1000000000) ∧ rnd ((ns : Rat) / 1000000000) ≤ 1 := by
+    by_cases h0 : 0 ≤ ns
+    · have := hfr.1 h0; grind
+    · have := hfr.2 (by omega); grind
+  obtain ⟨fS, vS⟩ := toRat_add (WF_ofInt sec) (WF_div _ _) (isFinite_ofInt_exact hsec) fQ (by
+    rw [toRat_ofInt_exact hsec, ofInt_1e9, vQ]
+    refine Rat.le_trans ?_ hmax; rw [abs_le_iff]; grind)
+  rw [toRat_ofInt_exact hsec, ofInt_1e9, vQ] at vS
+  rw [ofInt_1e9] at fS
+  rw [ofInt_1e9]
+  exact ⟨fS, WF_add (WF_ofInt sec) (WF_div _ _), vS⟩
+
+/-- `secondsVal` is monotone in the duration -/
+theorem secondsVal_mono {d₁ d₂ : Int} (h : d₁ ≤ d₂) : secondsVal d₁ ≤ secondsVal d₂ := by
+  obtain ⟨hs1, hp1, hn1, hb1⟩ := tdiv_tmod_facts d₁
+  obtain ⟨hs2, hp2, hn2, hb2⟩ := tdiv_tmod_facts d₂
+  unfold secondsVal
+  generalize Int.tdiv d₁ 1000000000 = s1 at *
+  generalize Int.tmod d₁ 1000000000 = n1 at *
+  generalize Int.tdiv d₂ 1000000000 = s2 at *
+  generalize Int.tmod d₂ 1000000000 = n2 at *
+  apply rnd_mono
+  have f1 := rnd_frac_bounds hb1
+  have f2 := rnd_frac_bounds hb2
+  by_cases hs : s1 = s2
+  · subst hs
+    have : n1 ≤ n2 := by omega
+    have := rnd_mono (div_le_div_right (c := 1000000000) (by grind) (Rat.intCast_le_intCast.2 this))
+    grind
+  · have hlt : s1 + 1 ≤ s2 := by
+      by_cases h1 : 0 ≤ d₁
+      · have := hp1 h1; have := hp2 (by omega); omega
+      · have := hn1 (by omega)
+        by_cases h2 : 0 ≤ d₂
+        · have := hp2 h2; omega
+        · have := hn2 (by omega); omega
+    have hc : ((s1 + 1 : Int) : Rat) ≤ (s2 : Rat) := Rat.intCast_le_intCast.2 hlt
+    rw [Rat.intCast_add, Rat.intCast_one] at hc
+    by_cases h1 : 0 ≤ d₁
+    · have a := f1.1 (hp1 h1).1
+      have b := f2.1 (hp2 (by omega)).1
+      grind
+    · have a := f1.2 (hn1 (by omega)).2
+      by_cases h2 : 0 ≤ d₂
+      · have b := f2.1 (hp2 h2).1
+        grind
+      · have b := f2.2 (hn2 (by omega)).2
+        grind
+
+/-- `Seconds()` is monotone (as rationals; both results are finite for int64 arguments) -/
+theorem durationSeconds_mono {d₁ d₂ : Int} (h1 : d₁.natAbs ≤ 2 ^ 63) (h2 : d₂.natAbs ≤ 2 ^ 63)
+    (h : d₁ ≤ d₂) : toRat (durationSeconds d₁) ≤ toRat (durationSeconds d₂) := by
+  rw [(durationSeconds_val h1).2.2, (durationSeconds_val h2).2.2]; exact secondsVal_mono h
+
+/-- whole seconds convert exactly (`|k| ≤ 2^53`) -/
+theorem secondsVal_whole {k : Int} (hk : k.natAbs ≤ 2 ^ 53) : secondsVal (k * 1000000000) = (k : Rat) := by
+  unfold secondsVal
+  have h1 : Int.tdiv (k * 1000000000) 1000000000 = k := Int.mul_tdiv_cancel _ (by decide)
+  have h2 : Int.tmod (k * 1000000000) 1000000000 = 0 := Int.mul_tmod_left _ _
+  rw [h1, h2, Rat.intCast_zero, Rat.div_def, Rat.zero_mul, rnd_zero, Rat.add_zero]
+  exact rnd_of_rep (rep_intCast hk)
+
+theorem secondsVal_nonneg {d : Int} (h : 0 ≤ d) : 0 ≤ secondsVal d := by
+  have := secondsVal_mono h
+  have h0 := secondsVal_whole (k := 0) (by decide)
+  simp only [Int.zero_mul, Rat.intCast_zero] at h0
+  rwa [h0] at this
+
+theorem secondsVal_nonpos {d : Int} (h : d ≤ 0) : secondsVal d ≤ 0 := by
+  have := secondsVal_mono h
+  have h0 := secondsVal_whole (k := 0) (by decide)
+  simp only [Int.zero_mul, Rat.intCast_zero] at h0
+  rwa [h0] at this
+
+/-- `timemath.Duration(s)` of a finite `s` whose nanosecond value fits int64 is the truncation
+    of the rounded product -/
+theorem toDuration_val {s : F64} (hs : isFinite s = true)
+    (h : (toRat s * 1000000000).abs ≤ pow2 62) :
+    toDuration s = trunc (rnd (toRat s * 1000000000)) := by
+  unfold toDuration
+  rw [ofInt_1e9]
+  obtain ⟨f, v⟩ := toRat_mul hs (show isFinite (.fin 1000000000) = true from rfl)
+    (by rw [toRat_fin]; exact Rat.le_trans h (pow2_le_maxFin (by decide)))
+  rw [toRat_fin] at v
+  have hb := rnd_abs_le_of_rep (rep_pow2 (K := 62) (by decide)) h
+  have := pow2_strictMono (show (62 : Int) < 63 by decide)
+  have := pow2_pos 62
+  rw [abs_le_iff] at hb
+  rw [toInt64_eq_trunc f (by rw [v]; grind) (by rw [v]; grind), v]
+
 end ScionTime.F64
